@@ -10,7 +10,9 @@ ASSUMPTIONS = ["the built binary (go build of /repo/main.go) is run in scratch d
 FILES = {"a.txt": "banana band 50%an% an\"q an\\y", "b.txt": "an apple\nand a nap %d an%s", "c.log": "bandana", "d%s 100%.txt": "an%v & <an>",
          # names in which the literal tail of *.txt starts to match early and has to be retried
          "x.t.txt": "an", "only..txt": "nan", "a.txt.txt": "anan"}
-PROGS = {"find": "find all 'an' maybe in '%', '\"', '\\\\', '>'", "replace": "replace all 'an' with '<%' value '%d>'", "delete": "replace all 'an' with ''", "failing": "find all ("}
+PROGS = {"find": "find all 'an' maybe in '%', '\"', '\\\\', '>'", "replace": "replace all 'an' with '<%' value '%d>'", "delete": "replace all 'an' with ''", "failing": "find all (",
+         # several commands over several files: the result list is ordered command by command, within a command file by file
+         "several": "find all 'ban' find all ('an' = w) maybe 'd' replace all 'nd' with 'ND' find all at least 1 (('a' or 'n') = c) named cs"}
 FILESETS = {"one": "a.txt", "several": "*.txt", "glob": "*", "none": "*.nothing"}
 
 
